@@ -89,11 +89,19 @@ theorem SubsOk.state {m m' : State} {js : List SubMon} (h : SubsOk m js)
   have := SubsOk.congr (m' := m') id h hsubs hnsid hnow (fun _ => ⟨rfl, rfl, rfl, rfl, rfl⟩)
   simpa using this
 
+theorem pc_modify_ne (pc : List Nat) (x i : Nat) (f : Nat → Nat) (h : i ≠ x) : (pc.modify x f)[i]? = pc[i]? :=
+  List.getElem?_modify_ne _ _ (fun e => h e.symm)
+
+theorem pc_modify_self (pc : List Nat) (x n : Nat) (f : Nat → Nat) (h : pc[x]? = some n) :
+    (pc.modify x f)[x]? = some (f n) := by
+  rw [List.getElem?_modify_eq, h]; rfl
+
 /-! ### assignment to a state variable -/
 
 /-- the monitor after `set x val` changed variable x -/
 def Mon.assigned (j : Mon) (x : Nat) (val : Val) : Mon :=
-  { j with cur := j.cur.set x (some val), lastChange := j.lastChange.set x j.now }
+  { j with cur := j.cur.set x (some val), lastChange := j.lastChange.set x j.now,
+           pendingChg := j.pendingChg.modify x (· + 1) }
 
 /-- assignment that neither triggers nor (newly) defers: the variable is not evented or a timer is already pending;
     `g` is the rest of the change to variable x (identity, or arming the timer). -/
@@ -120,11 +128,15 @@ theorem assign_rel (m : State) (j : Mon) (x : Nat) (val : Val) (v0 : Var) (g : V
       have := h.vars i a hi
       exact ⟨this.sent_le, this.trig, fun f hf => by
         obtain ⟨a1, a2, a3, a4⟩ := this.dfr f hf
-        exact ⟨a1, a2, by show _ ≤ (j.lastChange.set x j.now).getD i 0; rw [getD_set_ne _ _ _ _ _ hne]; exact a3, a4⟩⟩
+        exact ⟨a1, a2, by show _ ≤ (j.lastChange.set x j.now).getD i 0; rw [getD_set_ne _ _ _ _ _ hne]; exact a3, a4⟩,
+        by show ∃ n, (j.pendingChg.modify x (· + 1))[i]? = some n ∧ _
+           rw [pc_modify_ne _ _ _ _ hne]; exact this.pc⟩
     · intro a ha
       rw [hx] at ha; cases ha
       have := h.vars x v0 hx
-      refine ⟨by rw [(hg _).2.2.2]; exact this.sent_le, by rw [(hg _).2.2.2]; exact this.trig, fun f hf => ?_⟩
+      obtain ⟨n0, hn0, _⟩ := this.pc
+      refine ⟨by rw [(hg _).2.2.2]; exact this.sent_le, by rw [(hg _).2.2.2]; exact this.trig, fun f hf => ?_,
+        ⟨n0 + 1, pc_modify_self _ _ _ _ hn0, fun _ => Nat.succ_pos _⟩⟩
       obtain ⟨b1, b2, b3⟩ := hd f hf
       refine ⟨by rw [(hg _).1]; exact b1, by rw [(hg _).2.2.2, (hg _).2.1]; exact b2, ?_, b3⟩
       show _ ≤ (j.lastChange.set x j.now).getD x 0
@@ -139,7 +151,7 @@ theorem assign_rel (m : State) (j : Mon) (x : Nat) (val : Val) (v0 : Var) (g : V
 
 /-- the monitor after an accepted trigger of variable x at time t -/
 def Mon.triggered (j : Mon) (x : Nat) (t : Int) : Mon :=
-  { j with now := t, lastTrig := j.lastTrig.set x (some t),
+  { j with now := t, lastTrig := j.lastTrig.set x (some t), pendingChg := j.pendingChg.modify x (· - 1),
            subs := j.subs.map (fun s => { s with credit := s.credit + 1 }) }
 
 theorem credit_after_trigger (js : List SubMon) (k : Nat) (sm : SubMon)
@@ -175,7 +187,14 @@ theorem assign_trigger_rel (m : State) (j : Mon) (x : Nat) (val : Val) (v0 : Var
     have hr : ((j.assigned x val).rate.getD x 0 : Int) = v0.rate := by
       show ((j.rate.getD x 0 : Nat) : Int) = _
       rw [h.rate, getD_map_of_getElem? _ _ _ _ _ hx]
-    simp only [Mon.onObs, Mon.triggered, h1, h2]
+    obtain ⟨n0, hn0, _⟩ := hvo.pc
+    have hp : decide (0 < (j.assigned x val).pendingChg.getD x 0) = true := by
+      show decide (0 < (j.pendingChg.modify x (· + 1)).getD x 0) = true
+      simp [List.getD_eq_getElem?_getD, pc_modify_self _ _ _ _ hn0]
+    have hl : (j.assigned x val).lapse m.now = j.assigned x val := by
+      have := lapse_self (j.assigned x val)
+      rw [show (j.assigned x val).now = m.now from hn] at this; exact this
+    simp only [Mon.onObs, hl, Mon.trigAt, Mon.triggered, h1, h2, hp]
     congr 1
     rcases hvo.trig with e | e
     · have e' : (j.assigned x val).lastTrig[x]? = some none := e
@@ -215,19 +234,23 @@ theorem assign_trigger_rel (m : State) (j : Mon) (x : Nat) (val : Val) (v0 : Var
   · rw [hf.lastChange, hvars]
     show (j.lastChange.set x j.now).length = ((m.vars.modify x _).modify x _).length
     simp only [List.length_set, List.length_modify]; exact h.lcLen
-  · rw [hf.lastChange, hf.lastTrig, hvars, hnow]
+  · rw [hf.lastChange, hf.lastTrig, hf.pendingChg, hvars, hnow]
     show ∀ i v, ((m.vars.modify x _).modify x _)[i]? = some v →
-      VarOk m.now (j.lastTrig.set x (some m.now)) (j.lastChange.set x j.now) i v
+      VarOk m.now (j.lastTrig.set x (some m.now)) (j.lastChange.set x j.now)
+        ((j.pendingChg.modify x (· + 1)).modify x (· - 1)) i v
     rw [List.modify_modify_eq]
     apply forall_modify
     · intro i a hi hne
       have := h.vars i a hi
       exact ⟨this.sent_le, by rw [List.getElem?_set_ne (Ne.symm hne)]; exact this.trig, fun f hf' => by
         obtain ⟨a1, a2, a3, a4⟩ := this.dfr f hf'
-        exact ⟨a1, a2, by rw [getD_set_ne _ _ _ _ _ hne]; exact a3, a4⟩⟩
+        exact ⟨a1, a2, by rw [getD_set_ne _ _ _ _ _ hne]; exact a3, a4⟩,
+        by rw [pc_modify_ne _ _ _ _ hne, pc_modify_ne _ _ _ _ hne]; exact this.pc⟩
     · intro a ha
       rw [hx] at ha; cases ha
-      refine ⟨Int.le_refl _, Or.inr (by rw [List.getElem?_set_self hlt]; rfl), fun f hf' => ?_⟩
+      obtain ⟨n0, hn0, _⟩ := hvo.pc
+      refine ⟨Int.le_refl _, Or.inr (by rw [List.getElem?_set_self hlt]; rfl), fun f hf' => ?_,
+        ⟨(n0 + 1) - 1, pc_modify_self _ _ _ _ (pc_modify_self _ _ _ _ hn0), fun hd' => absurd hdn hd'⟩⟩
       simp only [Function.comp] at hf'
       rw [hdn] at hf'; cases hf'
   · intro s hs sm hsm i v hv _ _
